@@ -216,24 +216,29 @@ ExecS(st, env, S) ==
            IF r.sig # "ok" THEN r ELSE Ok(Bind(r.s, env, st.b, r.v), NilV)
       [] st.k = "asg" ->
            IF st.t.k = "var"
-           THEN LET r == EvalE(st.e, env, S) IN
-                IF r.sig # "ok" THEN r
-                ELSE IF st.op = "=" THEN AssignVar(r.s, env, st.t.b, r.v)
-                ELSE LET fr == FrameOf(r.s, env, st.t.b) IN
-                     IF fr < 0 THEN Halt(r.s, "stuck:assign-unbound-variable")
-                     ELSE LET n == ApplyBin(OpOf(st.op), ValueIn(r.s, fr, st.t.b), r.v, r.s) IN
-                          IF n.sig # "ok" THEN n ELSE AssignVar(n.s, env, st.t.b, n.v)
+           THEN IF st.op = "="
+                THEN LET r == EvalE(st.e, env, S) IN
+                     IF r.sig # "ok" THEN r ELSE AssignVar(r.s, env, st.t.b, r.v)
+                ELSE \* `x op= e` is `x = x op e`: x is read BEFORE e is evaluated (strict left to right)
+                     LET fr0 == FrameOf(S, env, st.t.b) IN
+                     IF fr0 < 0 THEN Halt(S, "stuck:assign-unbound-variable")
+                     ELSE LET cur == ValueIn(S, fr0, st.t.b)
+                              r == EvalE(st.e, env, S) IN
+                          IF r.sig # "ok" THEN r
+                          ELSE LET n == ApplyBin(OpOf(st.op), cur, r.v, r.s) IN
+                               IF n.sig # "ok" THEN n ELSE AssignVar(n.s, env, st.t.b, n.v)
            ELSE \* field target: object first, then the value
                 LET o == EvalE(st.t.e, env, S) IN
                 IF o.sig # "ok" THEN o
                 ELSE IF o.v.k # "ref" THEN Halt(o.s, "stuck:field-of-" \o o.v.k)
                 ELSE IF o.s.heap[o.v.a].k # "blob" \/ st.t.f \notin DOMAIN o.s.heap[o.v.a].fields
                      THEN Halt(o.s, "stuck:missing-field")
-                ELSE LET r == EvalE(st.e, env, o.s) IN
+                ELSE LET cur == o.s.heap[o.v.a].fields[st.t.f]     \* the field is read before the right-hand side runs
+                         r == EvalE(st.e, env, o.s) IN
                      IF r.sig # "ok" THEN r
                      ELSE IF st.op = "="
                        THEN Ok([r.s EXCEPT !.heap[o.v.a].fields[st.t.f] = r.v], NilV)
-                       ELSE LET n == ApplyBin(OpOf(st.op), r.s.heap[o.v.a].fields[st.t.f], r.v, r.s) IN
+                       ELSE LET n == ApplyBin(OpOf(st.op), cur, r.v, r.s) IN
                             IF n.sig # "ok" THEN n
                             ELSE Ok([n.s EXCEPT !.heap[o.v.a].fields[st.t.f] = n.v], NilV)
       [] st.k = "loop" -> RunLoop(st, env, S)
